@@ -4,17 +4,35 @@ simulation between `Compress.XFlate.Reader` and the abstract ReadSeeker.
 -/
 import Compress.XFlate.ReaderSpec
 import Compress.Proofs.IndexSearch
+import Compress.Proofs.XRIndex
+import Compress.Proofs.XRSeek
+import Compress.Proofs.XRRead
 
 namespace Compress.Proofs.XFlateReader
-open Compress.XFlate
+open Compress.XFlate Compress.Proofs.XRIndex Compress.Proofs.XRSeek Compress.Proofs.XRRead
 
 theorem search_eq_spec (recs : List Record) (h : rawSorted recs = true) (p : Int) :
     search recs p = searchSpec recs p :=
   Compress.Proofs.IndexSearch.search_eq_spec recs h p
 
+theorem specSeek_nonneg {len pos off : Int} {wh : Nat} {p : Int}
+    (h : specSeek len pos off wh = some p) : 0 ≤ p := by
+  unfold specSeek at h
+  match wh with
+  | 0 => by_cases hp : off < 0 <;> simp [hp] at h <;> omega
+  | 1 => by_cases hp : pos + off < 0 <;> simp [hp] at h <;> omega
+  | 2 => by_cases hp : len + off < 0 <;> simp [hp] at h <;> omega
+  | _+3 => simp at h
+
 theorem open_inv (L : Layout) (plain : List UInt8) (wf : WellFormed L plain) :
     Inv L (opened .fixed L) ∧ (opened .fixed L).offset = 0 ∧ (opened .fixed L).err = none := by
-  sorry
+  have h : opened .fixed L = slowState L preOpen 0 (pickRi L preOpen 0) := by
+    unfold opened
+    rw [seek_eq L preOpen 0 0 (Or.inl rfl)]
+    simp [specSeek, seekTo, fastCond, preOpen]
+  rw [h]
+  obtain ⟨a, b, c⟩ := pickRi_ok wf preOpen (Nat.zero_le _) 0 (Int.le_refl _)
+  exact ⟨inv_slow wf preOpen 0 _ (Int.le_refl _) a b c, rfl, rfl⟩
 
 theorem seek_refines (L : Layout) (plain : List UInt8) (wf : WellFormed L plain)
     (s : RState) (inv : Inv L s) (off : Int) (wh : Nat) :
@@ -23,20 +41,93 @@ theorem seek_refines (L : Layout) (plain : List UInt8) (wf : WellFormed L plain)
                 (seek .fixed L s off wh).1.offset = p ∧ Inv L (seek .fixed L s off wh).1 ∧
                 (seek .fixed L s off wh).1.err = none
     | none => (seek .fixed L s off wh).2.2 = some .invalid ∧ (seek .fixed L s off wh).1 = s := by
-  sorry
+  have herr : s.err = none ∨ s.err = some .eof := by
+    rcases inv.errOK with h | h
+    · exact Or.inl h
+    · exact Or.inr h.1
+  rw [seek_eq L s off wh herr, ← wf.endEq]
+  cases hsp : specSeek L.endRaw s.offset off wh with
+  | none => exact ⟨rfl, rfl⟩
+  | some p => exact inv_seekTo wf s inv p (specSeek_nonneg hsp)
 
 theorem read_refines (L : Layout) (plain : List UInt8) (wf : WellFormed L plain)
     (s : RState) (inv : Inv L s) (herr : s.err = none) (n : Nat) (adv : Adv) :
     ∃ s' data e, read .fixed L s n adv (readFuel L) = some (s', data, e) ∧
       ReadOK plain s.offset n data e ∧ Inv L s' ∧ s'.offset = s.offset + data.length ∧ s'.err = e := by
-  sorry
+  unfold Compress.XFlate.read
+  rw [if_neg (by rw [herr]; simp)]
+  by_cases hn : n = 0
+  · rw [if_pos ⟨rfl, hn⟩]
+    refine ⟨s, [], none, rfl, ?_, inv, by simp, herr⟩
+    subst hn
+    refine ⟨by simp [slice], by simp, Or.inl rfl, fun _ => ⟨rfl, rfl⟩, ?_, ?_⟩
+    · intro h; omega
+    · intro h; omega
+  · rw [if_neg (by intro h; exact hn h.2)]
+    obtain ⟨inv1, herr1, hd1, hoff1⟩ := discard_ok wf s inv
+    rw [herr] at herr1
+    simp only []
+    rw [if_neg (by rw [herr1]; simp)]
+    obtain ⟨s', data, h1, h2, h3, h4⟩ :=
+      readLoop_ok wf n (by omega) (readFuel L) (discardStep L s) adv inv1 herr1 hd1
+        (by unfold readFuel; omega)
+    rw [h1]
+    rw [hoff1] at h2 h4
+    exact ⟨s', data, s'.err, rfl, h2, h3, h4, rfl⟩
 
 theorem eof_sticky (L : Layout) (s : RState) (h : s.err = some .eof) (n : Nat) (adv : Adv) (fuel : Nat) :
     read .fixed L s n adv fuel = some (s, [], some .eof) := by
-  sorry
+  unfold Compress.XFlate.read
+  simp [h]
+
+theorem trace_ok (L : Layout) (plain : List UInt8) (wf : WellFormed L plain) :
+    ∀ (ops : List ROp) (s : RState), Inv L s →
+      TraceOK plain s.offset ops (runOps .fixed L s ops) := by
+  intro ops
+  induction ops with
+  | nil => intro s _; simp [runOps, TraceOK]
+  | cons op ops ih =>
+    intro s inv
+    cases op with
+    | seek off wh =>
+      have hs := seek_refines L plain wf s inv off wh
+      simp only [runOps, TraceOK]
+      cases hsp : specSeek plain.length s.offset off wh with
+      | none =>
+        rw [hsp] at hs
+        simp only []
+        refine ⟨hs.1, ?_⟩
+        rw [hs.2]
+        exact ih s inv
+      | some p =>
+        rw [hsp] at hs
+        simp only []
+        obtain ⟨h1, h2, h3, h4, _⟩ := hs
+        refine ⟨h1, h2, ?_⟩
+        have := ih _ h4
+        rw [h3] at this
+        exact this
+    | read n adv =>
+      rcases inv.errOK with herr | ⟨herr, hseg⟩
+      · obtain ⟨s', data, e, h1, h2, h3, h4, _⟩ := read_refines L plain wf s inv herr n adv
+        simp only [runOps, h1, TraceOK]
+        refine ⟨Or.inl h2, ?_⟩
+        have := ih _ h3
+        rw [h4] at this
+        exact this
+      · have h1 := eof_sticky L s herr n adv (readFuel L)
+        simp only [runOps, h1, TraceOK]
+        have hge := (inv_tail_off s inv hseg).1
+        rw [wf.endEq] at hge
+        refine ⟨Or.inr ⟨hge, by simp, by simp⟩, ?_⟩
+        have := ih s inv
+        simpa using this
 
 theorem readseeker (L : Layout) (plain : List UInt8) (wf : WellFormed L plain) (ops : List ROp) :
     TraceOK plain 0 ops (runOps .fixed L (opened .fixed L) ops) := by
-  sorry
+  obtain ⟨inv, hoff, _⟩ := open_inv L plain wf
+  have := trace_ok L plain wf ops _ inv
+  rw [hoff] at this
+  exact this
 
 end Compress.Proofs.XFlateReader
